@@ -304,11 +304,10 @@ def gen_scenario(rng, via="api", runs=2, allow_known=True):
                                  "ending": "\n", "sur_seed": rng.randint(0, 10 ** 9), "members": 0, "module_doc": False,
                                  "same_named_top": False}
     second = truth + "#2"
-    if second not in targets and rng.random() < (0.5 if via == "cli" else 0.15):
+    if second not in targets and rng.random() < (0.6 if via == "cli" else 0.15):
         # a second file of the truth's kind (whatever the kind): named after the truth on the command line, it is a target
-        # like any other.  (For a function truth only pre-states without a definition of their own: a definition that is
-        # there keeps its own body.)
-        targets[second] = {"pre": rng.choice(["missing", "empty", "absent"] if truth == "function" else PRE_STATES),
+        # like any other; more often than not it already holds a definition (an older copy of the truth)
+        targets[second] = {"pre": rng.choice(PRE_STATES + ["stale", "agreeing"]),
                            "n_sur": rng.randint(0, 3), "position": rng.choice(["before", "between", "after"]),
                            "trailing_newline": True, "ending": "\n", "sur_seed": rng.randint(0, 10 ** 9), "members": 0,
                            "module_doc": False, "same_named_top": False}
